@@ -178,6 +178,13 @@ func c07Monitor(s c07Scn, op c07Op, pre c07Pre, step c07Step) []Mon {
 				}
 			}
 		case c07Revision:
+			if manual {
+				for _, w := range xrBodies {
+					if bs := c07Map(w.Body.Spec); !c07Has(bs, k) || !c07Eq(bs[k], v) {
+						add("C07:revision-not-pushed-under-manual", "spec."+k+" of the claim is not asserted by "+w.T+" although the XR's update policy is Manual")
+					}
+				}
+			}
 			if !manual {
 				for _, w := range xrBodies {
 					if c07Has(c07Map(w.Body.Spec), k) {
@@ -369,6 +376,16 @@ func c07Monitor(s c07Scn, op c07Op, pre c07Pre, step c07Step) []Mon {
 				add("C07:claim-spec-changed", "spec."+k+" ("+o+") of the claim changed across the sync")
 			}
 		}
+	}
+	// the documented back-propagation does happen
+	if v, ok := refXR["compositionRef"]; ok && !c07Has(cmSpec, "compositionRef") && !c07Eq(pcSpec["compositionRef"], v) {
+		add("C07:composition-ref-not-pulled", "the claim has no compositionRef but did not receive the XR's")
+	}
+	if v, ok := refXR["compositionRevisionRef"]; ok && v != nil && auto && !c07Eq(pcSpec["compositionRevisionRef"], v) {
+		add("C07:revision-not-pulled-under-automatic", "the XR's update policy is Automatic but the claim's compositionRevisionRef is not the XR's")
+	}
+	if en := c07Ann(post, c07ExtName); en != "" && pc.Annotations[c07ExtName] != en {
+		add("C07:external-name-not-propagated", "the claim's external name is not the XR's "+en)
 	}
 	for k := range cmSpec {
 		if k == "compositionRevisionRef" && !ssa && auto {
